@@ -359,7 +359,25 @@ func runHybridHistory(r *rand.Rand, o hybridOpts, t *Trace) *Case {
 				}
 			}
 			fu, _ := comet.NewFusion(fkinds[fk], cfg)
-			s := h.NewSearch().WithK(k).WithThreshold(thr).WithScoreAggregation(aggs[aggz]).WithCutoff(cutoff).WithNProbes(np)
+			s := h.NewSearch()
+			if r.Intn(8) == 0 { // builder defaults: k 10, sum aggregation, no cutoff, no threshold, 1 probe
+				k = 10
+				t.Stat("hybrid.search_default_k")
+			} else {
+				s = s.WithK(k)
+			}
+			if !(thr == 0 && r.Intn(2) == 0) {
+				s = s.WithThreshold(thr)
+			}
+			if !(aggz == 0 && r.Intn(2) == 0) {
+				s = s.WithScoreAggregation(aggs[aggz])
+			}
+			if !(cutoff == -1 && r.Intn(2) == 0) {
+				s = s.WithCutoff(cutoff)
+			}
+			if !(np == 1 && r.Intn(2) == 0) {
+				s = s.WithNProbes(np)
+			}
 			defaultCfg := cfg.VectorWeight == 1 && cfg.TextWeight == 1 && cfg.K == 60
 			switch {
 			case defaultCfg && r.Intn(3) == 0:
